@@ -7,5 +7,7 @@ pub mod deliver;
 pub mod engine;
 pub mod gen;
 pub mod known;
+pub mod model;
+pub mod simmem;
 pub mod props;
 pub mod umh;
